@@ -4,7 +4,7 @@
    checked against the real database by the sqlhist stream); durability across close/reopen is SQLite's and
    is observed, not proved; the full-text search clause has no theorem (oracle only, known finding K4). *)
 From Coq Require Import List Arith.
-From RL Require Import UData History SqlHist SqlHistProofs.
+From RL Require Import UData History SqlHist SqlHistProofs SqlHistSpec.
 
 (* for every operation sequence (adds, gets, limit changes, reopens): rowids stay strictly increasing along
    the table -- which is the order of (last) entry, since an accepted line is appended with a fresh, larger
@@ -51,6 +51,45 @@ Theorem C20_walk_up :
   walk_up (S fuel) rows b = rows.
 Proof. exact walk_up_all. Qed.
 Print Assumptions C20_walk_up.
+
+(* The statement of the property as a specification (Proofs/SqlHistSpec.v): the list of (session, line) in the order
+   entered -- an accepted line goes to the end; under ignore-duplicates an earlier copy from the SAME session goes; the size
+   limit drops from the old end; a reopen changes nothing in the list; switching the duplicates policy on is refused when a
+   session already holds a line twice. One operation of the model gives the specification's list and the same answer ... *)
+Theorem C20_operation_refines_the_list :
+  forall (U : UData) (h : sqlh) (o : sop),
+  abs (fst (sql_step U h o)) = fst (spec_step U (abs h) o)
+  /\ answer_of o (snd (sql_step U h o)) = snd (spec_step U (abs h) o).
+Proof. exact step_refines. Qed.
+Print Assumptions C20_operation_refines_the_list.
+
+(* ... so after ANY sequence of operations (adds, gets, limit changes, reopens under the same or another Config, policy
+   switches on the open object) the rows of the table in rowid order -- the order both walks follow -- are exactly that list *)
+Theorem C20_table_is_the_list_entered :
+  forall (U : UData) (ops : list sop) (max : nat) (igs igd : bool),
+  map entry_of (q_rows (fst (sql_run U (sql_new max igs igd) ops)))
+  = sp_list (spec_run U (mkSpec nil 0 0 max igs igd max) ops).
+Proof. exact table_is_the_list. Qed.
+Print Assumptions C20_table_is_the_list_entered.
+
+Theorem C20_list_add_meaning :
+  forall (U : UData) (s : sspec) (line : str),
+  spec_refuses U s line = false ->
+  exists sess, (sess = if Nat.eqb (sp_sess s) 0 then S (sp_nsess s) else sp_sess s)
+    /\ snd (spec_add U s line) = true
+    /\ sp_list (fst (spec_add U s line))
+       = (if sp_igd s then filter (fun x => negb (key_is sess line x)) (sp_list s) else sp_list s) ++ ((sess, line) :: nil).
+Proof. exact spec_add_meaning. Qed.
+Print Assumptions C20_list_add_meaning.
+
+(* non-vacuity of the policy switch: a b a under always-add, then ignore-duplicates is refused; after the limit dropped the
+   older `a` it is accepted *)
+Example C20_switch_example :
+  let a := (97 :: nil)%N in let b := (98 :: nil)%N in
+  map (answer_of (SSetDups true))
+      (snd (sql_run ex_U (sql_new 100 false false) (SAdd a :: SAdd b :: SAdd a :: SSetDups true :: SSetMax 2 :: SSetDups true :: nil)))
+  = (Some true :: Some true :: Some true :: Some false :: Some true :: Some true :: nil).
+Proof. vm_compute. reflexivity. Qed.
 
 (* non-vacuity: a b a (same session, ignore-duplicates), limit 2, reopen, c: the table is b? no -- [a; c] with gaps *)
 Example C20_example :
